@@ -85,6 +85,10 @@ class C05(Property):
                 step = rng.choice([len(rest), len(rest), 3, 5, 64])
                 parts = [data[:cut]] + [rest[i:i + step] for i in range(0, len(rest), max(1, step))]
                 cases.append(Case("framesched " + " ".join("c" + hexs(p) for p in parts if p), tags=("chunked-" + enc,)))
+                # ... and once more byte by byte with a transient `Interrupted` before every chunk: every place where the reader
+                # refills (BOM probe, line scan, the look-ahead byte of an UTF-16LE line feed) must retry (seeds C05-i, C10-j)
+                if len(data) <= 400:
+                    cases.append(Case("framesched " + " ".join("i c%02x" % b for b in data), tags=("interrupted-bytewise-" + enc,)))
         for f in bundled_files():
             data = open(f, "rb").read()
             cases.append(Case("frame " + hexs(data), tags=("bundled",)))
